@@ -2227,3 +2227,102 @@ func c10UnionBraceLayout(c *Ctx, r *Report, clause string) {
 			"a comment between `%union` and `{` (`%union /* values */ {`, or `%union // values` with the brace on the next line) is not skipped: the grammar is rejected as `not correct token` although only a comment was added")
 	}
 }
+
+// c10CharLiteralExtent — a character literal is read through its closing quote (C10.d, C11): every path of
+// charaterState that emits a token has consumed the literal's characters AND the quote that ends it — two runes for
+// a plain character, three when the first one is the backslash. A path that emits one rune short leaves the closing
+// quote in the input, where it starts another literal.
+func c10CharLiteralExtent(c *Ctx, r *Report, clause string) {
+	f := c.need(r, clause, "Parser", "", "charaterState")
+	if f == nil {
+		return
+	}
+	info := f.Pkg.TypesInfo
+	key := f.Name + "/literal-is-read-through-its-closing-quote"
+	pe := newPathEnum(info)
+	paths, err := pe.Enumerate(f.Decl.Body.List)
+	if err != nil {
+		r.Undecided(clause, "R2 TOKEN-BOUNDARY", key, c.pos(f.Decl.Pos()), err.Error())
+		return
+	}
+	var bad []string
+	nEmit := 0
+	for _, esc := range []bool{false, true} {
+		// the first rune: a backslash or an ordinary character; the runes after it: whatever lets the path emit
+		first := int64('a')
+		if esc {
+			first = '\\'
+		}
+		for _, p := range paths {
+			emits := false
+			nNext := 0
+			for _, e := range p.Effects {
+				if e.Kind != "call" {
+					continue
+				}
+				if strings.HasSuffix(e.Term.Name, "lexer).next") {
+					nNext++
+				}
+				if strings.HasSuffix(e.Term.Name, "lexer).emitValue") || strings.HasSuffix(e.Term.Name, "lexer).emit") {
+					emits = true
+				}
+			}
+			if !emits {
+				continue
+			}
+			// is the path consistent with the first rune being `first`? evaluate only the conditions on the first next()
+			consistent := true
+			for _, cd := range p.Conds {
+				if cd.Atom.Op != "cmp" || len(cd.Atom.Args) != 2 {
+					continue
+				}
+				a, b := cd.Atom.Args[0], cd.Atom.Args[1]
+				if a.Op == "call" && strings.HasSuffix(a.Name, "lexer).next") && a.Node == firstNextCall(f) && b.Val != nil && b.Val.Kind() == constant.Int {
+					v, _ := constant.Int64Val(b.Val)
+					eq := first == v
+					if cd.Atom.Name == "!=" {
+						eq = !eq
+					}
+					if cd.Atom.Name == "==" || cd.Atom.Name == "!=" {
+						if eq != cd.Pol {
+							consistent = false
+						}
+					}
+				}
+			}
+			if !consistent {
+				continue
+			}
+			nEmit++
+			want := 2
+			if esc {
+				want = 3
+			}
+			if nNext != want {
+				kind := "a plain character"
+				if esc {
+					kind = "an escaped character"
+				}
+				bad = append(bad, fmt.Sprintf("a path that emits the token for %s consumes %d rune(s), the literal's text has %d (characters and the closing quote)", kind, nNext, want))
+			}
+		}
+	}
+	sortStrings(bad)
+	r.Check(len(bad) == 0 && nEmit >= 2, clause, "R2 TOKEN-BOUNDARY", key, c.pos(f.Decl.Pos()),
+		fmt.Sprintf("%d emitting path(s): two runes for 'c', three for an escaped character — the closing quote is consumed before the token is emitted", nEmit),
+		"a character literal is emitted before its closing quote is consumed: "+strings.Join(dedupStrings(bad), "; "))
+}
+
+// firstNextCall: the first call of (*lexer).next in source order.
+func firstNextCall(f *FuncRef) ast.Node {
+	var first ast.Node
+	ast.Inspect(f.Decl.Body, func(n ast.Node) bool {
+		if call, ok := n.(*ast.CallExpr); ok && first == nil {
+			if fn := callee(f.Pkg.TypesInfo, call); fn != nil && fn.Name() == "next" {
+				first = call
+			}
+		}
+		return first == nil
+	})
+	return first
+}
